@@ -24,7 +24,7 @@ LEVEL = "fault_enumeration"
 RULE = (
     "Scenarios: entry in {octave_write, atomic_write_octave, CLI write --stdin} x mode in {new file, overwrite, changes, normalize} "
     "(changes/normalize for octave_write only) x base_hash in {none, current} x parent directory in {exists, missing} x permission "
-    "bits in {0644, 0600, 0444} x document size in {~60 B, ~25 kB}; 36 scenarios in quick. Per scenario the fault-free run is traced "
+    "bits in {0644, 0600, 0444} x document size in {~60 B, ~25 kB}; 46 scenarios in quick. Per scenario the fault-free run is traced "
     "(15-40 file-operation boundaries: lstat/stat/open/read/close/mkdir/mkstemp-open/fchmod/write/flush/fsync/replace/unlink ...) and "
     "every boundary index x {kill, kill after torn write, short write (descriptor-level writes), ENOSPC, EACCES, EIO, EINTR, EROFS} is executed in a forked child on a fresh "
     "sandbox (thorough: plus every ordered pair of boundaries for ENOSPC and EIO). Oracle (supervisor): after a kill the target holds "
